@@ -36,8 +36,9 @@ from luna.gateware.usb.stream import SuperSpeedStreamInterface
 W = 18   # width of all spec-side arithmetic (lengths < 2^16, so nothing wraps)
 
 EXPLANATION = (
-    "Unbounded inductive refinement proof of ConstantStreamGenerator (8-bit, 16-bit, 32-bit little endian; with and "
-    "without max_length; sync/usb/ss domains; enumerated constants) and StreamSerializer against a reference model "
+    "Unbounded inductive refinement proof of ConstantStreamGenerator (8-bit, 16-bit, 32-bit little endian; with max_length, "
+    "and without it on a tree where that variant elaborates; sync/usb/ss domains; enumerated constants) and "
+    "StreamSerializer (with and without max_length) against a reference model "
     "written from the statement.  Assumptions: start_position < number of words at the start strobe; start_position "
     "(and, for the serializer, max_length) held stable while the stream is active, because `first` (and the "
     "serializer's `last`) are computed from the live inputs.  Big-endian 32-bit generator WITH a max_length port: "
